@@ -632,6 +632,27 @@ class Evaluator:
                     c = _eq(other, Poly.var("None$"))
                     return c if isinstance(n.ops[0], ast.Is) else ("not", c)
             raise Unsupported("identity comparison", n)
+        if isinstance(n, ast.Compare) and len(n.ops) == 1 and isinstance(
+                n.ops[0], (ast.In, ast.NotIn)) and isinstance(
+                n.comparators[0], (ast.Tuple, ast.List, ast.Set)):
+            # membership in a display of values: a disjunction of equalities
+            # (component-wise for tuples of equal length)
+            if isinstance(n.left, ast.Tuple):
+                alts = []
+                for e_ in n.comparators[0].elts:
+                    if not (isinstance(e_, ast.Tuple) and len(
+                            e_.elts) == len(n.left.elts)):
+                        raise Unsupported("tuple membership", n)
+                    alts.append(c_and(*[
+                        _eq(self.num(env, a_), self.num(env, b_))
+                        for a_, b_ in zip(n.left.elts, e_.elts)]))
+                c = c_or(*alts) if alts else ("false",)
+                return c if isinstance(n.ops[0], ast.In) else c_not(c)
+            left = self.num(env, n.left)
+            alts = [_eq(left, self.num(env, e_))
+                    for e_ in n.comparators[0].elts]
+            c = c_or(*alts) if alts else ("false",)
+            return c if isinstance(n.ops[0], ast.In) else c_not(c)
         if isinstance(n, ast.Compare):
             parts = []
             left = self.num(env, n.left)
